@@ -16,7 +16,10 @@
 //   thread 0: start ;
 //   thread t+1: complete_<ch> <t> <arg> ;
 //   endcase
-//   case <id> kind=schedule_from seed=<n> strat=<..> [life=1]      (C03x: life cycle of the schedule_from operation state)
+//   case <id> kind=schedule_from|let_value|let_error seed=<n> strat=<..> [life=1] [sthrow=1] [fthrow=1]
+//                                (C03x: life cycle of the schedule_from / let_value / let_error operation state;
+//                                 let kinds: sched_<ch> completes the successor; sthrow: storing the value throws,
+//                                 fthrow: the user function throws)
 //   thread a: start ;   thread b: complete_<ch> 0 <arg> ;   thread c: sched_<ch> <arg> ;   (ops may share threads;
 //   a completion requested before its operation state was started is delivered inline inside that start)
 //   endcase
@@ -69,6 +72,17 @@ static long long code_of(std::exception_ptr const& ep)
 // The value type of the schedule_from cases: a copy / move construction is the adaptor storing the value in its
 // operation state (`ts.emplace`): preemption point + line `sf.store`; the destruction of such a stored instance
 // is the line `sf.tsdtor`.  Temporaries made from an int (the leaf's argument) are silent.
+static bool g_store_throws = false;    // let kinds, case attribute sthrow=1: storing the value throws verif_exc{41}
+static int store_point(int v, int copy)
+{
+    if (g_store_throws)
+    {
+        verif::pt("lt.storethrow", nullptr, 41, 0);
+        throw verif_exc{41};
+    }
+    verif::pt("sf.store", nullptr, v, copy);
+    return v;
+}
 struct cval
 {
     int v;
@@ -78,13 +92,13 @@ struct cval
       , stored(false)
     {
     }
-    cval(cval&& o) noexcept
-      : v((verif::pt("sf.store", nullptr, o.v, 0), o.v))
+    cval(cval&& o)
+      : v(store_point(o.v, 0))
       , stored(true)
     {
     }
-    cval(cval const& o) noexcept
-      : v((verif::pt("sf.store", nullptr, o.v, 1), o.v))
+    cval(cval const& o)
+      : v(store_point(o.v, 1))
       , stored(true)
     {
     }
@@ -226,7 +240,7 @@ struct term_recv
 // Construction (`sf.conn`), `start()` (`sf.sstart`) and the point after arming (`sf.armed`: the completion may now
 // run on another thread while this one is still inside `start()`) are preemption points; the destructor logs
 // `sf.sopdtor`.  After arming `start()` does not touch its operation state again (the completion may destroy it).
-template <class R>
+template <class R, bool Succ = false>
 struct sched_op
 {
     std::decay_t<R> r;
@@ -238,16 +252,21 @@ struct sched_op
       : r(std::forward<R_>(r_))
       , t(t_)
     {
-        pt("sf.conn", nullptr, 0, 0);
+        pt(Succ ? "lt.conn" : "sf.conn", nullptr, 0, 0);
     }
-    ~sched_op() { nt("sf.sopdtor", nullptr, 0, 0); }
+    ~sched_op() { nt(Succ ? "lt.sopdtor" : "sf.sopdtor", nullptr, 0, 0); }
     void start() & noexcept
     {
-        pt("sf.sstart", nullptr, 0, 0);
+        pt(Succ ? "lt.sstart" : "sf.sstart", nullptr, 0, 0);
         trigger* tt = t;
         tt->fire_fn = [this](int ch, long long arg) {
             auto rr = std::move(r);    // receiver on the stack before it is completed
-            if (ch == 0) ex::set_value(std::move(rr));
+            if (ch == 0)
+            {
+                if constexpr (Succ) ex::set_value(std::move(rr), int(arg));
+                else
+                    ex::set_value(std::move(rr));
+            }
             else if (ch == 2)
                 ex::set_error(std::move(rr), std::make_exception_ptr(verif_exc{arg}));
             else
@@ -289,6 +308,43 @@ struct manual_scheduler
     friend sender tag_invoke(ex::schedule_t, manual_scheduler s) { return {s.t}; }
     bool operator==(manual_scheduler const& o) const noexcept { return t == o.t; }
     bool operator!=(manual_scheduler const& o) const noexcept { return !(*this == o); }
+};
+
+// ---------------------------------------------------------------- SUCCESSOR OF let_value / let_error (C03x)
+// The sender the user function returns: its operation state is a `sched_op<R, true>` (lines `lt.conn`, `lt.sstart`,
+// `sf.armed`, `lt.sopdtor`), completed by the case's `sched_<ch> <arg>` op with the value `arg` / an error / stopped.
+struct succ_sender
+{
+    PIKA_STDEXEC_SENDER_CONCEPT
+    template <template <class...> class Tuple, template <class...> class Variant>
+    using value_types = Variant<Tuple<int>>;
+    template <template <class...> class Variant>
+    using error_types = Variant<std::exception_ptr>;
+    static constexpr bool sends_done = true;
+    trigger* t;
+    template <class R>
+    sched_op<R, true> connect(R&& r) const
+    {
+        return {std::forward<R>(r), t};
+    }
+};
+// the user function: reads the stored value THROUGH THE REFERENCE it is given (`lt.call v`), may throw verif_exc{42}
+struct let_fn
+{
+    trigger* t;
+    bool throws;
+    succ_sender operator()(cval& v) const
+    {
+        pt(throws ? "lt.callthrow" : "lt.call", nullptr, v.v, 42);
+        if (throws) throw verif_exc{42};
+        return {t};
+    }
+    succ_sender operator()(std::exception_ptr& ep) const
+    {
+        pt(throws ? "lt.callthrow" : "lt.call", nullptr, code_of(ep), 42);
+        if (throws) throw verif_exc{42};
+        return {t};
+    }
 };
 
 // ---------------------------------------------------------------- ABORT HANDLER
@@ -565,7 +621,33 @@ static void run_one(case_t const& c)
     consume_fn consume, discard;
     std::function<void()> start_wa;
 
-    if (kind == "schedule_from")
+    if (kind == "let_value" || kind == "let_error")
+    {
+        // trg[0]: the predecessor (manual leaf sending a counted value), trg[1]: the successor the user function returns
+        trg.push_back(new trigger{0});
+        trg.push_back(new trigger{1});
+        g_store_throws = c.geti("sthrow", 0) != 0;
+        let_fn f{trg[1], c.geti("fthrow", 0) != 0};
+        bool const life = c.geti("life", 0) != 0;
+        if (life) install_segv_handler();
+        auto mk = [&](auto snd) {
+            using S = decltype(snd);
+            if (life)
+            {
+                auto* h = new self_deleting_op<S>(std::move(snd), 0);
+                start_wa = [h] { ex::start(h->op); };
+            }
+            else
+            {
+                auto* op = new auto(ex::connect(std::move(snd), term_recv{0}));
+                start_wa = [op] { ex::start(*op); };
+            }
+        };
+        if (kind == "let_value") mk(ex::let_value(manual_sender<cval>{trg[0]}, f));
+        else
+            mk(ex::let_error(manual_sender<cval>{trg[0]}, f));
+    }
+    else if (kind == "schedule_from")
     {
         // trg[0]: the predecessor (manual leaf sending a counted value), trg[1]: the scheduler
         trg.push_back(new trigger{0});
@@ -738,7 +820,7 @@ static void run_one(case_t const& c)
         }
     }
 
-    bool const sf = kind == "schedule_from";
+    bool const sf = kind == "schedule_from" || kind == "let_value" || kind == "let_error";
     bool wa = kind == "when_all" || kind == "when_all_vector" || sf;
     bool const life_mode = !wa && c.geti("life", 0) != 0;
     bool const wa_life = wa && c.geti("life", 0) != 0;
